@@ -85,9 +85,9 @@ func awaitRedraw(s *vxdrive.Session) bool {
 type Px [4]uint8 // straight (non-premultiplied) r,g,b,a
 
 type Img struct {
-	W      int    `json:"w"`
-	H      int    `json:"h"`
-	Pix    []Px   `json:"pix,omitempty"` // row-major; empty = uniform opaque colour
+	W     int    `json:"w"`
+	H     int    `json:"h"`
+	Pix   []Px   `json:"pix,omitempty"`   // row-major; empty = uniform opaque colour
 	Model string `json:"model,omitempty"` // nrgba (default) or rgba (premultiplied storage)
 	// origin of the image handed to the library: its bounds are
 	// (OX,OY)-(OX+W,OY+H), as for a SubImage of a larger picture. The oracle
@@ -724,19 +724,19 @@ type PlOp struct {
 }
 
 type PlCase struct {
-	Proto string `json:"proto"` // kitty sixel
-	CW    int    `json:"cw"`
-	CH    int    `json:"ch"`
-	Imgs  []Img  `json:"imgs"`
+	Proto string   `json:"proto"` // kitty sixel
+	CW    int      `json:"cw"`
+	CH    int      `json:"ch"`
+	Imgs  []Img    `json:"imgs"`
 	Boxes [][2]int `json:"boxes"` // initial Resize box per image
-	Ops   []PlOp `json:"ops"`
+	Ops   []PlOp   `json:"ops"`
 }
 
 var (
-	apcRe    = regexp.MustCompile(`\x1b_G([^;\x1b]*)(?:;([^\x1b]*))?\x1b\\`)
-	sixelRe  = regexp.MustCompile(`\x1bP[0-9;]*q([^\x1b]*)\x1b\\`)
-	cupRe    = regexp.MustCompile(`\x1b\[([0-9]+);([0-9]+)H$`)
-	cupAny   = regexp.MustCompile(`\x1b\[([0-9]+);([0-9]+)H`)
+	apcRe   = regexp.MustCompile(`\x1b_G([^;\x1b]*)(?:;([^\x1b]*))?\x1b\\`)
+	sixelRe = regexp.MustCompile(`\x1bP[0-9;]*q([^\x1b]*)\x1b\\`)
+	cupRe   = regexp.MustCompile(`\x1b\[([0-9]+);([0-9]+)H$`)
+	cupAny  = regexp.MustCompile(`\x1b\[([0-9]+);([0-9]+)H`)
 )
 
 // sixelExtent returns the pixel size of what a sixel body paints.
